@@ -119,6 +119,8 @@ def generate(reg, key, budget=None):
                 env0 = Env(closure_env or Env(None, {"__module__": mod}), dict(vals))
                 for k, r in enumerate(c.requires):
                     ctx.assume(truthy(sp.eval(r, env0)), f"requires:{key}[{k}]")
+                for k, r in enumerate(c.assumes):
+                    ctx.assume(truthy(sp.eval(r, env0)), f"assumes:{key}[{k}]")
                 old = {k: snapshot(v) for k, v in vals.items()}
                 if closure_env is not None:
                     for k, v in closure_env.vars.items():
